@@ -216,6 +216,8 @@ struct TryGuard {
         gsim::forbid_blocking_on(nullptr, nullptr);
     }
 };
+/// `t_entry`: for the _until forms the requested time point itself (ns on the
+/// simulated clock); unused for the _for forms
 inline void check_timed(int64_t t_entry, std::chrono::microseconds d, bool until, const char* what)
 {
     if (!G->oracle_handle) return;
@@ -223,9 +225,9 @@ inline void check_timed(int64_t t_entry, std::chrono::microseconds d, bool until
     int64_t req = (int64_t)d.count() * 1000;
     if (until) {
         int64_t dl = gsim::timed_block_latest_deadline();
-        if (dl >= 0 && dl > t_entry + req + 1000)
+        if (dl >= 0 && dl > t_entry)
             gsim::fail("waits_too_long", "%s waited with a deadline %lld ns after the requested "
-                       "time point", what, (long long)(dl - (t_entry + req)));
+                       "time point", what, (long long)(dl - t_entry));
     } else {
         int64_t mx = gsim::timed_block_max_ns();
         if (mx > req)
@@ -553,11 +555,13 @@ struct Exec {
                 if constexpr (has_try_lock<W>::value && timed) {
                     HeldSnap b = snap();
                     auto d = dur_of(op.c);
-                    int64_t t0 = gsim::now_ns();
+                    auto tp = std::chrono::steady_clock::now() + d;
+                    int64_t t0 = std::chrono::duration_cast<std::chrono::nanoseconds>(
+                                     tp.time_since_epoch()).count();
                     {
                         auto h = [&] {
                             TryGuard g(T::strict_try);
-                            return w.try_lock_until(std::chrono::steady_clock::now() + d);
+                            return w.try_lock_until(tp);
                         }();
                         check_timed(t0, d, true, "try_lock_until");
                         check_acquired(b, (bool)h, false, false, "try_lock_until()");
@@ -626,11 +630,13 @@ struct Exec {
                 if constexpr (has_try_lock_shared<W>::value && (sharedm ? shared_timed : timed)) {
                     HeldSnap b = snap();
                     auto d = dur_of(op.c);
-                    int64_t t0 = gsim::now_ns();
+                    auto tp = std::chrono::steady_clock::now() + d;
+                    int64_t t0 = std::chrono::duration_cast<std::chrono::nanoseconds>(
+                                     tp.time_since_epoch()).count();
                     {
                         auto h = [&] {
                             TryGuard g(T::strict_try);
-                            return cw.try_lock_shared_until(std::chrono::steady_clock::now() + d);
+                            return cw.try_lock_shared_until(tp);
                         }();
                         check_timed(t0, d, true, "try_lock_shared_until");
                         check_acquired(b, (bool)h, true, sharedm, "try_lock_shared_until()");
